@@ -375,12 +375,37 @@ def tar_extreme(rng, b):
     return True
 
 
+def sevenzip_header_mutation(rng, b):
+    """Damage the (unencoded or encoded) 7-Zip header database and recompute the two header CRCs, so that the
+    damage is parsed instead of being stopped by the integrity check.  False if `b` is no 7z archive."""
+    import zlib
+    if len(b) < 32 or bytes(b[:6]) != b"7z\xbc\xaf\x27\x1c":
+        return False
+    off = int.from_bytes(b[12:20], 'little'); size = int.from_bytes(b[20:28], 'little')
+    start = 32 + off
+    if size == 0 or start + size > len(b):
+        return False
+    for _ in range(rng.choice([1, 1, 2, 3])):
+        i = start + rng.randrange(size); r = rng.random()
+        if r < 0.4:
+            b[i] ^= 1 << rng.randrange(8)
+        elif r < 0.8:
+            b[i] = rng.choice([0, 1, 2, 5, 6, 9, 10, 11, 12, 13, 14, 15, 17, 18, 19, 20, 21, 23, 24, 25, 0x7f, 0x80, 0xff])   # property ids, size prefixes
+        else:
+            b[i] = (b[i] + rng.choice([1, 255])) & 0xff
+    b[28:32] = (zlib.crc32(bytes(b[start:start + size])) & 0xffffffff).to_bytes(4, 'little')
+    b[8:12] = (zlib.crc32(bytes(b[12:32])) & 0xffffffff).to_bytes(4, 'little')
+    return True
+
+
 def mutate(rng, data):
     b = bytearray(data)
     if not b:
         return bytes(b)
     if rng.random() < 0.25 and tar_extreme(rng, b):
         tar_fix_checksums(b)
+        return bytes(b)
+    if rng.random() < 0.6 and sevenzip_header_mutation(rng, b):
         return bytes(b)
     head = rng.random() < 0.45           # concentrate on the first header
     for _ in range(rng.choice([1, 1, 2, 4, 16])):
@@ -444,6 +469,19 @@ class Rd(ReadBase):
             blk = rng.choice(['w', '1', '7', '512', 'r3']) if len(data) < 20000 else rng.choice(['w', '512', 'r3'])
             cons = rng.choice(['A', 'a', 'B', 'A,S,B', 'N', 'P10,a'])
             yield Case(f'rd:{name}:{i}', ['load ' + mp, f'run blk={blk} src={src} cons={cons} trunc=- fault=-'], {'file': mp})
+        # 7-Zip keeps its whole structure in a CRC-protected header database: damage it behind the CRCs
+        z7 = sorted(p_ for n_, p_ in pool if n_.endswith('.7z') and os.path.getsize(p_) < 100000)
+        rng.shuffle(z7)
+        for j, p_ in enumerate(z7[:(10 if tier == 'quick' else len(z7))]):
+            data = open(p_, 'rb').read()
+            for i in range(25 if tier == 'quick' else 300):
+                b = bytearray(data)
+                if not sevenzip_header_mutation(rng, b):
+                    break
+                mp = os.path.join(d, f'z{os.getpid()}_{j}_{i}_{os.path.basename(p_)}')
+                open(mp, 'wb').write(bytes(b))
+                yield Case(f'rd:7zhdr:{os.path.basename(p_)}:{i}',
+                           ['load ' + mp, f'run blk={rng.choice(["w", "512", "7"])} src={rng.choice(["cbk", "cbk", "mem:512"])} cons={rng.choice(["A", "B", "S", "N"])} trunc=- fault=-'], {'file': mp})
         # header sweep: one small representative per format family, single damaged bytes in the fixed
         # header (length, count and size fields live there) combined with a cut just behind it
         def only_of(path):
